@@ -84,7 +84,7 @@ def run_obligation(pid, module, h, params, tier, seed, budget_scale=1.0):
         ob["status"] = "harness-error"
         ob["detail"] = "worker crashed: " + sym.get("worker_error", "")[-1500:]
         return ob
-    vectors = [c["args"] for c in sym.get("counterexamples", [])] + list(sym.get("witnesses", [])) + list(h.vectors)
+    vectors = [c["args"] for c in sym.get("counterexamples", [])] + list(sym.get("witnesses", [])) + list(h.vectors(params) if callable(h.vectors) else h.vectors)
     if vectors:
         real = _worker(dict(job, mode="real", vectors=vectors), wall_timeout=600)
         mdl = _worker(dict(job, mode="models", vectors=vectors), wall_timeout=600) if h.models else real
